@@ -25,6 +25,7 @@
 From Coq Require Import Reals Lra List ZArith Bool.
 From LF Require Import Render.Pruning Render.DCGrid Render.DCGridSem Render.DCBoundary.
 From LF Require Render.DCBoundaryCont.
+From LF Require Render.OctTree Render.OctTreeCollect Render.OctTreeSem.
 Import ListNotations.
 
 (* ------------------------------------------------------------------ *)
@@ -60,6 +61,31 @@ Section Pruning.
     forall p, inc p small -> (classify big = Filled -> f p < 0) /\ (classify big = Empty -> 0 < f p).
   Proof. exact (vol_tree_prune_sound P f cell inc lo hi sound). Qed.
 End Pruning.
+
+(* ------------------------------------------------------------------ *)
+(* adaptive octrees (Render/OctTree.v): what carries over from the uniform grid                            *)
+(* ------------------------------------------------------------------ *)
+Module AdaptiveDC.
+Import OctTree OctTreeCollect OctTreeSem.
+Local Open Scope Z_scope.
+
+(* NO HOLES: on any consistent adaptive octree - collapsed cells next to finer ones, pruned cells of any size -
+   the dual-contouring mesh has no boundary edge (every directed edge is matched by its reverse), for every
+   choice of quad diagonals and every verdict of the numerical collapse tests: nothing can leak through it *)
+Theorem C04_dc_adaptive_no_holes : forall ins ok pre k diag,
+  oconsistent ins pre (0, 0, 0) k -> oboundary_clear ins k ->
+  oclosed_mesh (mesh_walk diag (ocollect ok k [] pre)).
+Proof.
+  intros ins ok pre k diag C BC. apply (walk3_closed ins _ k); [|exact BC]. apply ocollect_consistent. exact C.
+Qed.
+
+(* SURFACE ONLY AT SIGN CHANGES: every triangle is emitted for a lattice edge whose four surrounding cells are
+   ambiguous leaves, the smallest of which sees a sign change along it (DCMesher::load's minimum-level rule);
+   pruned (EMPTY / FILLED) cells never carry surface *)
+Theorem C04_dc_adaptive_surface_at_sign_changes : forall ins t k diag,
+  oconsistent ins t (0, 0, 0) k -> forall tr, In tr (mesh_walk diag t) -> load_call ins diag tr.
+Proof. exact walk3_calls. Qed.
+End AdaptiveDC.
 
 Print Assumptions C04_pruned_cells_have_no_surface.
 Print Assumptions C04_surface_only_in_ambiguous_cells.
@@ -264,3 +290,5 @@ Print Assumptions C04_vertices_near_surface.
 Print Assumptions C04_thin_feature_invisible.
 Print Assumptions C04_boundary_examples.
 Print Assumptions C04_geometric_example.
+Print Assumptions AdaptiveDC.C04_dc_adaptive_no_holes.
+Print Assumptions AdaptiveDC.C04_dc_adaptive_surface_at_sign_changes.
